@@ -574,7 +574,16 @@ func execC11(t *testing.T, w *core.World, p *run.Plan, r *run.Result) {
 				want = nonPong(ref[1:])
 			}
 			got := nonPong(cl.got)
-			if d := seqDiff(want, got); d != "" {
+			d := seqDiff(want, got)
+			if d != "" && p.Free && len(got) < len(want) && seqDiff(want[:len(got)], got) == "" {
+				// free-running mode: the concurrent senders notice the dead connection on their own (a failed write
+				// starts the reconnect, which closes the socket) while the parser may not have consumed everything
+				// that had arrived: intact frames behind that point are lost with the socket, legitimately. Nothing
+				// may be invented or reordered.
+				w.Probe("free-mode-intact-frames-lost-to-the-clients-own-close")
+				d = ""
+			}
+			if d != "" {
 				w.Violate("C11.d-s2c", "C11.d|"+tag, fmt.Sprintf("after %s in s2c frame %d (%s): client %d vs reference receiver on the same bytes: %s", f.Kind, f.Frame, f.Region, ci, d))
 			}
 		} else {
